@@ -423,6 +423,9 @@ func (k *Kernel) handle(conn int, m []byte) []byte {
 		}
 		for _, a := range r.Attrs {
 			t := a.Type
+			if kind == 'P' && t == 9 { // the netlink unix socket path is not returned by GET_PDR
+				continue
+			}
 			if a.Nested {
 				out = append(out, nlw.Nest(t, a.Data))
 			} else {
